@@ -96,6 +96,40 @@ fn check_definite(d: &MDesc, lib: &glue::Desc, rep: &mut Report) -> Result<(), F
             }
         }
     }
+    // a descriptor whose script is a top-level sortedmulti: the convenience constructors give
+    // the same descriptor (hence the same, key-order independent, output)
+    {
+        use miniscript::Descriptor as D;
+        let top = match d {
+            MDesc::Wsh(Node::SortedMulti(k, ks)) => Some((0, *k, ks.clone())),
+            MDesc::ShWsh(Node::SortedMulti(k, ks)) => Some((1, *k, ks.clone())),
+            MDesc::Sh(Node::SortedMulti(k, ks)) => Some((2, *k, ks.clone())),
+            _ => None,
+        };
+        if let Some((which, k, ks)) = top {
+            let dks: Result<Vec<crate::glue::DK>, _> = ks.iter().rev().map(|x| crate::glue::DK::from_str(x)).collect();
+            if let Ok(dks) = dks {
+                if let Ok(th) = miniscript::Threshold::new(k, dks) {
+                    let built = match which {
+                        0 => D::new_wsh_sortedmulti(th),
+                        1 => D::new_sh_wsh_sortedmulti(th),
+                        _ => D::new_sh_sortedmulti(th),
+                    };
+                    match built {
+                        Ok(b2) => {
+                            if b2.script_pubkey().as_bytes() != &sc.spk[..] {
+                                return fail(&format!("sortedmulti-ctor-spk/{}", kind), format!("the sortedmulti constructor (keys listed in reverse) pays to {} instead of {}", b2.script_pubkey().to_hex_string(), keys::hex(&sc.spk)));
+                            }
+                            if !b2.to_string().contains("sortedmulti(") {
+                                return fail(&format!("sortedmulti-ctor-text/{}", kind), format!("the sortedmulti constructor built {}", b2));
+                            }
+                        }
+                        Err(e) => return fail(&format!("sortedmulti-ctor-rejects/{}", kind), format!("the sortedmulti constructor rejects the keys of an accepted descriptor: {}", e)),
+                    }
+                }
+            }
+        }
+    }
     // addresses on every network
     for net in NETS {
         let reference = Address::from_script(&ScriptBuf::from_bytes(sc.spk.clone()), net);
@@ -182,7 +216,7 @@ fn instantiate(t: &str, alt: usize, index: Option<u32>) -> String {
 impl Check for C16 {
     fn id(&self) -> &'static str { "C16" }
     fn rule(&self) -> String {
-        "lane `definite`: descriptors of every output type (hex keys in every legal form, definite xpub keys with/without origin): script_pubkey == own standard template over the independently encoded explicit script; explicit_script, unsigned_script_sig, script_code per BIP16/143 tables, and the per-type accessors (Bare/Pkh/Wpkh/Sh/Wsh/Tr ::script_pubkey, inner_script, ecdsa_sighash_script_code) give the same bytes; address(net) == rust-bitcoin Address::from_script on 4 networks and pays to the spk; sortedmulti: a random permutation of the keys gives the same spk. lane `derive`: the same descriptors with xpub keys turned into wildcard templates: derive_at_index / at_derivation_index / derived_descriptor / find_derivation_index_for_spk agree with `substitute the index in the text, parse, own BIP32 CKDpub`; index >= 2^31 and hardened wildcards are errors. lane `multipath`: templates with <a;b;..> steps (2-4 alternatives, repeats allowed): into_single_descriptors()[j] == parse(text with the j-th alternative), mismatched lengths are errors. Non-trivial = descriptor with a derived key or a wrapped output type; distinct by (text, index).".into()
+        "lane `definite`: descriptors of every output type (hex keys in every legal form, definite xpub keys with/without origin): script_pubkey == own standard template over the independently encoded explicit script; explicit_script, unsigned_script_sig, script_code per BIP16/143 tables, and the per-type accessors (Bare/Pkh/Wpkh/Sh/Wsh/Tr ::script_pubkey, inner_script, ecdsa_sighash_script_code) give the same bytes; address(net) == rust-bitcoin Address::from_script on 4 networks and pays to the spk; sortedmulti: a random permutation of the keys gives the same spk, and Descriptor::new_{wsh,sh_wsh,sh}_sortedmulti with the keys listed in reverse gives the same output. lane `derive`: the same descriptors with xpub keys turned into wildcard templates: derive_at_index / at_derivation_index / derived_descriptor / find_derivation_index_for_spk agree with `substitute the index in the text, parse, own BIP32 CKDpub`; index >= 2^31 and hardened wildcards are errors. lane `multipath`: templates with <a;b;..> steps (2-4 alternatives, repeats allowed): into_single_descriptors()[j] == parse(text with the j-th alternative), mismatched lengths are errors. Non-trivial = descriptor with a derived key or a wrapped output type; distinct by (text, index).".into()
     }
     fn lanes(&self, tier: Tier) -> Vec<(&'static str, usize, usize)> {
         match tier {
@@ -203,6 +237,29 @@ impl Check for C16 {
             }
             c
         });
+        // now and then a plain top-level sortedmulti (the wallet multisig template)
+        let d = if src.chance(1, 10) {
+            let n = src.range(1, 5);
+            let k = src.range(1, n);
+            let mut ks: Vec<String> = Vec::new();
+            let mut tries = 0;
+            while ks.len() < n && tries < 40 {
+                tries += 1;
+                let i = (src.below(12) + tries) % 12;
+                let kt = if src.chance(1, 2) { keys::key_compressed(i) } else { keys::key_xpub(src.below(3), src.below(3) as u32, src.below(8) as u32, src.bool()) };
+                if !ks.contains(&kt) {
+                    ks.push(kt);
+                }
+            }
+            let k = k.min(ks.len()).max(1);
+            match src.below(3) {
+                0 => MDesc::Wsh(Node::SortedMulti(k, ks)),
+                1 => MDesc::ShWsh(Node::SortedMulti(k, ks)),
+                _ => MDesc::Sh(Node::SortedMulti(k, ks)),
+            }
+        } else {
+            d
+        };
         let sugar = src.bool();
         if lane == "definite" {
             let text = d.print(sugar);
